@@ -61,7 +61,7 @@ def conformance_case(arg):
     """Compile Fex/Jac/EvalRates of one network for dense, sparse and rosenbrock4 with ASan/UBSan and
     exactly-sized heap buffers, run them on two abundance vectors, and compare every value with
     E4's evaluation of the same text (binds the reader to the real compiler)."""
-    desc, seed = arg
+    desc, seed, cuda = arg
     import random
 
     from ..ctext import poly as P
@@ -78,6 +78,8 @@ def conformance_case(arg):
             net = oc.build_network(desc)
     except Exception:
         return 0, []
+    if cuda:
+        viols += cuda_vs_dense(net, label, rng)
     for backend in ("dense", "sparse", "rosenbrock4"):
         try:
             files = render(net, backend, OR.TEMPLATES_ODEINT if backend == "rosenbrock4" else OR.TEMPLATES_CVODE)
@@ -126,6 +128,83 @@ def conformance_case(arg):
     return nvals, viols
 
 
+def cuda_vs_dense(net, label, rng):
+    """The cuSPARSE sources executed on the host (kernels launched thread by thread over a batch of three systems
+    with different abundances and parameters, grid smaller than the batch) must give, system by system, the values
+    the dense back-end's compiled Fex/Jac give for the same state.  Both sides are the real emitted code under
+    ASan/UBSan; a difference is a layout disagreement between back-ends (C03), not a harness matter."""
+    from ..harness import oderun as OR
+    from ..harness.render import render
+
+    try:
+        fd = render(net, "dense", OR.TEMPLATES_CVODE)
+        fc = render(net, "cusparse", None)
+        neq = read_ode(fd, "dense").neq
+    except Exception:
+        return []  # judged by the text checks
+    yvals = [[0.5 + ((7 * i + 3 * g) % 11) / 8.0 for i in range(neq)] for g in range(3)]  # fixed, pairwise different
+    from ..ctext.stmts import read_macros
+
+    mac = read_macros(fd["include/naunet_macros.h"])
+    if "IDX_TGAS" in mac.text:
+        for yv, T in zip(yvals, (8.0e3, 2.5e4, 1.2e4)):  # temperatures at which the cooling functions are not zero
+            yv[mac.value("IDX_TGAS")] = T
+    base = {"nH": 1e4, "Tgas": 50.0, "zeta": 1.3e-17, "Av": 1.0, "omega": 0.5, "mu": 1.3, "gamma": 1.6}
+    plist = [dict(base, Tgas=T, nH=n, zeta=z) for T, n, z in ((50.0, 1e4, 1.3e-17), (220.0, 3e5, 5e-16), (15.0, 2e3, 2e-18))]
+    rd = OR.build_and_run(fd, "dense", yvals, plist)
+    rc = OR.build_and_run(fc, "cusparse", yvals, plist)
+    case = dict(label, backend="cusparse", executed=True)
+    if "error" in rd:
+        return []  # the dense side is judged by the loop below
+    if "error" in rc:
+        if rc["error"] == "runtime":
+            return [("C03:cuda-host-execution:sanitizer-or-abort", f"cuSPARSE sources executed on the host: {rc['detail']}", case)]
+        return [("C03:cuda-host-execution:compile", f"cuSPARSE sources do not compile for the host: {rc['detail'][:300]}", case)]
+    out = []
+    for g, (a, b) in enumerate(zip(rd["runs"], rc["runs"])):
+        for i, (x, y) in enumerate(zip(a["ydot"], b["ydot"])):
+            if not _close(x, y):
+                out.append(("C03:cuda-vs-dense:ydot", f"system {g} of a batch of 3: cuSPARSE FexKernel gives ydot[{i}] = {y!r}, the dense Fex gives {x!r} for the same state", case))
+                return out
+        for (r, c), x in a["jac"].items():
+            y = b["jac"].get((r, c), 0.0)
+            if not _close(x, y):
+                out.append(("C03:cuda-vs-dense:jac", f"system {g} of a batch of 3: cuSPARSE JacKernel gives J[{r}][{c}] = {y!r}, the dense Jac gives {x!r} for the same state", case))
+                return out
+    return out
+
+
+def cuda_fixed_case(i):
+    """networks whose rate coefficients depend on the per-system user data (temperature law, cosmic-ray rate), with
+    and without the thermal equation: the batch members differ in Tgas, nH and zeta, so a kernel that mixes up the
+    systems' abundance windows *or* their user data disagrees with the dense back-end"""
+    import random
+
+    from ..harness.render import reset_globals, quiet
+
+    reset_globals()
+    from naunet.network import Network
+    from naunet.reactions.reaction import Reaction
+    from naunet.reactiontype import ReactionType
+
+    with quiet():
+        reacs = [
+            Reaction(["H", "e-"], ["H+", "e-", "e-"], 1.0, 1e9, 1e-10, 0.5, 15.0, ReactionType.GAS_TWOBODY, 1),
+            Reaction(["H+", "e-"], ["H"], 1.0, 1e9, 3e-12, -0.75, 0.0, ReactionType.GAS_TWOBODY, 2),
+            Reaction(["H2", "CR"], ["H", "H"], -1.0, -1.0, 0.5, 0.0, 0.0, ReactionType.GAS_COSMICRAY, 3),
+        ]
+        net = Network(reacs, cooling=[[], ["CIC_HI"], ["CIC_HI", "RC_HII"]][i], required_species=["H", "e-", "H+", "H2"])
+    return 1, cuda_vs_dense(net, {"fixed": i}, random.Random(0))
+
+
+def _close(x, y):
+    import math
+
+    if math.isnan(x) or math.isnan(y):
+        return math.isnan(x) and math.isnan(y)
+    return x == y or abs(x - y) <= 1e-12 * max(abs(x), abs(y))
+
+
 def _prod(mono, val):
     out = 1.0
     for s, e in mono:
@@ -155,13 +234,26 @@ def run(ctx):
     off = ctx.seed % step
     # modifier cases use free symbolic factors (f, g, ...) that are not declared C names: text checks only
     sub = [d for i, d in enumerate(uniq) if i % step == off and d.get("reactions") and not d.get("ode_modifier")]
+    # the thermal row is where the batch layout of the CUDA kernels matters most: some thermal networks are always in
+    therm = [d for d in uniq if d.get("cooling") and d.get("reactions") and not d.get("ode_modifier")]
+    sub += [d for d in therm[:: max(1, len(therm) // 4)][:4] if d not in sub]
     nconf = 0
-    for nv, viols in ctx.pmap(conformance_case, [(d, ctx.seed) for d in sub]):
+    ncuda = 0
+    work = []
+    for i, d in enumerate(sub):
+        cuda = bool(d.get("cooling")) or i % (3 if ctx.tier == "quick" else 2) == 0
+        ncuda += int(cuda)
+        work.append((d, ctx.seed, cuda))
+    for k, viols in ctx.pmap(cuda_fixed_case, [0, 1, 2]):
+        ncuda += k
+        ctx.absorb(viols)
+    for nv, viols in ctx.pmap(conformance_case, work):
         nconf += nv
         ctx.absorb(viols)
     ctx.assumptions += [
         "bounds are judged against the sizes the generated headers declare (NEQUATIONS, NREACTIONS, NNZ, NHEATPROCS, NCOOLPROCS) as evaluated from the rendered naunet_macros.h",
         "every subscript in Fex/Jac text of all four back-ends is a compile-time constant (checked: a non-constant subscript outside the two copy loops is a harness error)",
+        "cuSPARSE: the rendered .cu sources are compiled for the host (qualifiers defined away, K<<<g,b,..>>>(..) rewritten to a launcher that runs every thread of the grid in turn, device memory = exactly sized heap blocks, ASan/UBSan) and executed on a batch of 3 systems with a 1 x 2 grid, so the grid-stride loop and the per-system windows are exercised; per system the result must equal the dense back-end's compiled Fex/Jac on the same state (rel 1e-12). Kernels have no intra-block communication, so sequential execution of the threads is faithful",
     ]
     return {
         "evaluations": evals,
@@ -172,6 +264,7 @@ def run(ctx):
         "subscripts_checked": nsub,
         "distinct_nnz_values": len(shapes),
         "conformance_networks_compiled_with_asan_ubsan": len(sub),
+        "cuda_sources_executed_on_host_vs_dense": ncuda,
         "values_where_compiled_code_equals_E4": nconf,
         "exhaustive": True,
     }
@@ -180,5 +273,12 @@ def run(ctx):
 def replay(ctx, case):
     case = dict(case)
     case.pop("backend", None)
-    n, viols, _ = run_case(case)
-    ctx.absorb(viols)
+    executed = case.pop("executed", False)
+    if "fixed" not in case:
+        n, viols, _ = run_case(case)
+        ctx.absorb(viols)
+    if executed and "fixed" in case:
+        ctx.absorb(cuda_fixed_case(case["fixed"])[1])
+    elif executed:
+        nv, viols = conformance_case((case, ctx.seed, True))
+        ctx.absorb(viols)
